@@ -28,6 +28,9 @@ Times == {"before", "nb", "inside", "na", "after"}
 Provs == {"old_none", "new_none", "new_clspec", "new_commit"}   \* document date vs 2 Aug 2024, provenance
 Entries == {"Endorsement", "EndorsementProto", "SNPFunc_blob", "SNPFunc_opts", "SNPFunc_getter",
             "SevValidate_opts", "SevValidate_extra", "SevValidate_getter", "TdxValidate_opts",
+            \* the caller supplies the endorsement of the row while the attestation also carries a genuine
+            \* one: the supplied endorsement is the one policy and verdict are derived from
+            "SNPFunc_opts_plus_genuine_blob", "SevValidate_opts_plus_genuine_extra", "cli_sev_plus_genuine_extra",
             "cli_verify", "cli_sev_validate", "cli_tdx_validate"}
 
 Rows == [payload : Payloads, sig : Sigs, cert : Certs, roots : Roots, time : Times, prov : Provs, entry : Entries]
@@ -49,6 +52,7 @@ Enter ==
             IF row.payload = "unparseable" THEN Reject("reject:policy") ELSE Reject("accept")
        ELSE \* SevPolicy / TdxPolicy parse the payload before the verifier sees it
             IF row.entry \in {"SevValidate_opts", "SevValidate_extra", "SevValidate_getter", "cli_sev_validate",
+                              "SevValidate_opts_plus_genuine_extra", "cli_sev_plus_genuine_extra",
                               "TdxValidate_opts", "cli_tdx_validate"} /\ row.payload = "unparseable"
               THEN Reject("reject:policy")
               ELSE stage' = "unmarshal" /\ UNCHANGED <<row, result>>
